@@ -156,6 +156,7 @@ def nonCollidingOffsets (sceneAt : J6 R → Scene R) (own : Safety R) (cons : Op
       | some cc => cc.compliant c
       | none => true
     if !compliant then none
+    else if own.mode == .noCheck then some c   -- collision checks are disabled completely (as in `collides`)
     else if (detect (sceneAt c) own own (some .firstCollisionOnly) (List.range k) choice).isEmpty then some c
     else none)
 
